@@ -466,9 +466,26 @@ def run(rep, drv):
 		for v, w in vals:
 			if H.is_integer(v) != w:
 				diff('predicates', 'is_integer(%r) = %r' % (v, H.is_integer(v)), {}, None, None, True)
-		for v, w in [([1], True), ((1, 2), True), ('ab', False), (5, False), (np.array([1]), True), ({1: 2}, True), (None, False)]:
-			if H.is_iterable(v) != w:
-				diff('predicates', 'is_iterable(%r) = %r' % (v, H.is_iterable(v)), {}, None, None, True)
+		class OnlyGetitem:          # iterable through the sequence protocol (__getitem__ + __len__), no __iter__
+			def __len__(self): return 3
+			def __getitem__(self, i):
+				if i >= 3: raise IndexError(i)
+				return [4.0, 5.0, 6.0][i]
+		for v, w in [([1], True), ((1, 2), True), ('ab', False), (5, False), (np.array([1]), True), ({1: 2}, True), (None, False),
+					 (np.array(5.0), False), (np.float64(2.0), False), (np.squeeze(np.array([7])), False), (OnlyGetitem(), True), (range(3), True),
+					 ({1, 2}, True), ((x for x in [1]), True), ('', False), (np.array([[1, 2], [3, 4]]), True), (3.5, False)]:
+			if call(H.is_iterable, v) != w:
+				diff('predicates', 'is_iterable(%r) = %r: "iterable" means iter(x) works and x is not a string' % (v, call(H.is_iterable, v)), {}, None, None, True)
+		# the normalisers branch on that predicate: a zero-dimensional array is a singleton, a sequence-protocol object is a list
+		for fn_, args_, want_ in ((H.ensure_list_for_nodes, (np.array(5.0), 3), [5.0, 5.0, 5.0]), (H.ensure_list_for_nodes, (OnlyGetitem(), 3), [4.0, 5.0, 6.0]),
+								  (H.ensure_list_for_time_periods, (np.float64(2.0), 2), [0, 2.0, 2.0]), (H.check_iterable_sizes, ([[1, 2, 3], np.array(5.0)],), True)):
+			r_ = call(fn_, *args_)
+			try:
+				ok_ = (r_ == want_) if isinstance(want_, bool) else [float(x) for x in r_] == [float(x) for x in want_]
+			except Exception:
+				ok_ = False
+			if not ok_:
+				diff('predicates', '%s%r = %r, documented %r' % (fn_.__name__, args_, r_, want_), {}, None, None, True)
 		for fn, truthy in ((H.is_list, [[1], []]), (H.is_set, [{1}, set()]), (H.is_dict, [{1: 2}, {}])):
 			for v in ([1], [], {1}, set(), {1: 2}, {}, (1, 2), 'ab', 5, None, np.array([1])):
 				w = any(type(v) is type(tv) for tv in truthy)
